@@ -11,8 +11,11 @@ from vf.sim.world import Z40
 
 
 def policy_state(seed, name, tree):
-    """Deterministic CI verdict keyed by (branch name, tree id)."""
-    h = hashlib.sha1(('%s|%s|%s' % (seed, name, tree)).encode()).digest()
+    """Deterministic CI verdict keyed by the tree id of the commit."""
+    # keyed by content only: several branches (q/x.y and the newest
+    # q/w/<pr>/x.y/...) share one commit, and a CI verdict belongs to the
+    # commit, not to the branch name
+    h = hashlib.sha1(('%s|%s' % (seed, tree)).encode()).digest()
     if seed == 0:
         return 'SUCCESSFUL'
     return 'FAILED' if h[0] < 40 else 'SUCCESSFUL'
@@ -93,10 +96,11 @@ def settle(hist, seed, step, max_rounds=7):
     for rnd in range(max_rounds):
         before = w.heads()
         for name, sha in sorted(before.items()):
-            if not is_dest(name):
-                st = policy_state(seed, name, tree_of(w.remote, sha))
-                if w.ci.get(sha) != st:
-                    w.report(sha, st)
+            # a CI verdict, once given, does not flip: only commits that
+            # have no report yet get one from the policy
+            if not is_dest(name) and w.ci.get(sha) is None:
+                w.report(sha, policy_state(seed, name,
+                                           tree_of(w.remote, sha)))
         statuses = []
         for pid, author, src, dst, state in w.all_prs():
             if pid in w.prs and state == 'OPEN' and \
@@ -167,7 +171,20 @@ def apply_fault(hist, step):
         return settle(hist, seed, step)
 
     nv = len(hist.violations)
-    ref_trees = hist.on_snapshot(reference)
+    # the uninterrupted run is the same for every fault placed in this job
+    # (fault steps leave the world as they found it): compute it once
+    import json as _json
+    key = (sum(1 for s_ in hist.steps[:-1] if s_['op'] not in (
+        'fault', 'placed', 'rejected', 'twin', 'probe_path')),
+        _json.dumps(step['job'], sort_keys=True), seed)
+    cached = hist.mon_state.get('c02_ref')
+    if cached and cached[0] == list(key):
+        ref_trees = cached[1]
+        hist.count('c02_reference_reused')
+    else:
+        ref_trees = hist.on_snapshot(reference)
+        # on_snapshot restored mon_state: store after it
+        hist.mon_state['c02_ref'] = [list(key), ref_trees]
     # violations of the uninterrupted run belong to C01/C03, not to C02
     del hist.violations[nv:]
     if ref_trees is None:
